@@ -16,7 +16,7 @@ from concurrent.futures import ThreadPoolExecutor
 from .. import core, schemas, tlc
 from ..core import Stats, Violation
 
-EXCL_CHOICES = [None, "", "_", "m1", "m2", "m3", "g", "m1 m3", "m2 g", "m4"]
+EXCL_CHOICES = [None, "", "_", "m1", "m2", "m3", "g", "m1 m3", "m2 g", "m4", "h", "g h", "h m4"]
 
 
 def config(excl, order=("m1", "m2", "m3", "m4")):
@@ -24,9 +24,12 @@ def config(excl, order=("m1", "m2", "m3", "m4")):
     marks = {}
     for m in order:
         ms = {}
-        if m in ("m1", "m2"):
+        if m == "m1":
             ms["group"] = "g"
+        if m == "m2":
+            ms["group"] = "g h"          # a mark in two groups
         if m == "m3":
+            ms["group"] = "h"
             ms["attrs"] = {"id": {}}
         if m == "m4":
             ms["attrs"] = {"k": {"default": 0}}
@@ -34,7 +37,8 @@ def config(excl, order=("m1", "m2", "m3", "m4")):
             ms["excludes"] = excl[m]
         marks[m] = ms
     nodes = {
-        "doc": {"content": "(para | plain | none | grp | all)+"},
+        "doc": {"content": "(para | plain | none | grp | hgrp | all)+"},
+        "hgrp": {"content": "text*", "marks": "h"},
         "para": {"content": "text*"},
         "plain": {"content": "text*", "marks": "m1 m3"},
         "none": {"content": "text*", "marks": ""},
@@ -56,7 +60,7 @@ def family(rng: random.Random, n: int):
         {"m4": "_"},                                   # last excludes all
         {"m2": "m1", "m3": ""},                        # later excludes earlier, coexisting m3s
         {"m1": "m2 m3", "m3": ""},                     # earlier excludes later ones
-        {"m3": "g"}, {"m2": "g", "m1": "m4"},
+        {"m3": "g"}, {"m2": "g", "m1": "m4"}, {"m4": "h"}, {"m1": "h", "m3": ""},
     ]
     out = [(config(e), e, ("m1", "m2", "m3", "m4")) for e in fixed]
     orders = list(itertools.permutations(("m1", "m2", "m3", "m4")))
